@@ -21,6 +21,7 @@ import (
 	"time"
 
 	kit "github.com/refraction-networking/conjure/internal/verifkit"
+	cj "github.com/refraction-networking/conjure/pkg/station/lib"
 	"github.com/refraction-networking/conjure/pkg/transports/wrapping/prefix"
 	pb "github.com/refraction-networking/conjure/proto"
 	"google.golang.org/protobuf/proto"
@@ -98,10 +99,17 @@ type c04Case struct {
 	Cuts   []int
 	Early  int
 	Others bool
+	// the client's first attempt arrives while its registration is tracked but not validated yet
+	// (it is refused, as C02 demands); the registration is then validated and the client retries
+	EarlyAttempt bool
 }
 
 func (c c04Case) label() string {
-	return fmt.Sprintf("%s cuts=%v early=%d others=%v", c.Desc, c.Cuts, c.Early, c.Others)
+	ea := ""
+	if c.EarlyAttempt {
+		ea = " after-early-attempt"
+	}
+	return fmt.Sprintf("%s cuts=%v early=%d others=%v%s", c.Desc, c.Cuts, c.Early, c.Others, ea)
 }
 
 // one min/prefix session
@@ -129,7 +137,18 @@ func c04Session(s *vStation, rec *kit.Rec, rng interface{ Read([]byte) (int, err
 			}
 		}
 	}
-	reg, err := s.vAdmit(sp)
+	var reg *cj.DecoyRegistration
+	if cs.EarlyAttempt {
+		reg, err = s.vAdmitPaused(sp, func() {
+			// the too-early attempt: a genuine flight while the ingest worker is between "track" and "validate"
+			if efl, e2 := s.vFlight(sp); e2 == nil {
+				pc := kit.NewScriptConn("early", kit.TCPAddr(phantom.String(), 443), kit.TCPAddr("203.0.113.77", 40003), []kit.Seg{{Data: efl}}, kit.EndVirtualTimeout)
+				s.vHandle(pc, phantom)
+			}
+		})
+	} else {
+		reg, err = s.vAdmit(sp)
+	}
 	if err != nil {
 		rec.Violation("genuine-registration-refused", "a well-formed registration was refused by the station", map[string]interface{}{"case": label, "err": err.Error()})
 		return
@@ -260,6 +279,8 @@ func TestVerifC04MinPrefix(t *testing.T) {
 			k++
 		}
 		cases = append(cases, c04Case{TT: c.TT, Params: c.Params, Desc: c.Desc, Early: 8, Others: false}) // no cut
+		cases = append(cases, c04Case{TT: c.TT, Params: c.Params, Desc: c.Desc, Early: 8, Others: k%2 == 0, EarlyAttempt: true})
+		cases = append(cases, c04Case{TT: c.TT, Params: c.Params, Desc: c.Desc, Cuts: []int{1 + k%(c.FLen-1)}, Early: 31, Others: k%2 == 1, EarlyAttempt: true})
 	}
 	rec.Exhaustive(fmt.Sprintf("every 1-cut segmentation of flight+3 bytes for %d transport/prefix/flush/port configurations", len(cfgs)))
 	// (b) every 2-cut: quick = min transport and three prefixes (no flush variants); thorough = every prefix id
@@ -302,7 +323,7 @@ func TestVerifC04MinPrefix(t *testing.T) {
 			cuts = append(cuts, 1+rng.Intn(total-1))
 		}
 		sortInts(cuts)
-		cases = append(cases, c04Case{TT: c.TT, Params: c.Params, Desc: c.Desc, Cuts: cuts, Early: e, Others: rng.Intn(2) == 0})
+		cases = append(cases, c04Case{TT: c.TT, Params: c.Params, Desc: c.Desc, Cuts: cuts, Early: e, Others: rng.Intn(2) == 0, EarlyAttempt: rng.Intn(5) == 0})
 	}
 	var wg sync.WaitGroup
 	ch := make(chan c04Case, 64)
